@@ -31,6 +31,25 @@ def case(g, tier, ci):
     if seqx:
         ops += [{"op": "sq.new", "id": "s"}, {"op": "sq.setSR", "id": "s", "v": enc(SR)}, {"op": "sq.addElement", "id": "s", "pos": 1, "el": "e"},
                 {"op": "sq.setAmp", "id": "s", "ch": 1, "v": 100}, {"op": "sq.seqx", "id": "s"}]
+        if ci % 2 == 0:
+            # the channel is delayed: windows move with the waveform exactly once, in both output paths
+            ops += [{"op": "sq.setDelay", "id": "s", "ch": 1, "v": enc(r.choice([2, 5, 40]) / SR)},
+                    {"op": "sq.forge", "id": "s", "delays": True, "filters": False, "time": False}, {"op": "sq.seqx", "id": "s"}]
+        return ops
+    if ci % 7 == 3 and not any(o["op"] == "bp.insert" and o["fn"] == "waituntil" for o in ops):
+        # all durations plain integers, a non-integer sample rate: segment starts are the rounded counts / SR
+        newSR = r.choice([2.4, 7.3, 1.7])
+        for o in ops:
+            if o["op"] == "bp.insert":
+                o["dur"] = r.choice([d for d in range(1, 7) if abs(d * newSR - round(d * newSR)) <= 0.4 and round(d * newSR) >= 2])
+            if o["op"] == "bp.setSR":
+                o["SR"] = enc(newSR)
+        # windows on the new grid, away from rounding ties
+        ops[:] = [o for o in ops if o["op"] not in ("bp.setMarker", "bp.setSegMarker")]
+        for nm in names:
+            if r.random() < 0.6:
+                ops.insert(-3, {"op": "bp.setSegMarker", "id": "b", "name": nm, "specs": [q(r.choice([0, 1]) / newSR), q(r.choice([1, 2]) / newSR)],
+                                "mid": r.choice([1, 2])})
         return ops
     # edit history around the marked segments
     for _ in range(r.randint(0, 5)):
